@@ -26,6 +26,8 @@ VERIF = os.path.dirname(os.path.dirname(os.path.dirname(os.path.abspath(__file__
 COQ = os.path.join(VERIF, 'coq')
 BUILD = os.path.join(VERIF, 'build')
 REPO = os.environ.get('BUMBLE_REPO', '/repo')
+# evidence of runs against a scratch tree (seeded changes) must not overwrite the real evidence
+EVIDENCE_DIR = os.path.join(VERIF, 'evidence') if os.path.realpath(REPO) == '/repo' else os.path.join(BUILD, 'alt-evidence')
 COQFLAGS = ['-Q', COQ, 'BV', '-w',
             '-notation-overridden,-deprecated-hint-without-locality,-deprecated-instance-without-locality']
 
@@ -607,7 +609,7 @@ def decide(ctx: Ctx, proof_ok: bool, level: str) -> int:
         e = known[sig]
         lines.append(f"KNOWN-FINDING: property={ctx.prop} {e['id']} {e['what']}")
     stale = [s for s in known if s not in seen_known]
-    replay_dir = os.path.join(VERIF, 'evidence', 'replays')
+    replay_dir = os.path.join(EVIDENCE_DIR, 'replays')
     reported = set()
     for v in new_violations:
         if v['signature'] in reported or len(reported) >= 3:
@@ -681,8 +683,8 @@ def write_evidence(ctx: Ctx, proof_ok: bool, level: str, rc: int, stale):
         'violations': 0 if rc == 0 else max(1, len(ctx.violations)),
         'notes': ctx.notes,
     }
-    os.makedirs(os.path.join(VERIF, 'evidence'), exist_ok=True)
-    path = os.path.join(VERIF, 'evidence', ctx.prop + '.json')
+    os.makedirs(EVIDENCE_DIR, exist_ok=True)
+    path = os.path.join(EVIDENCE_DIR, ctx.prop + '.json')
     tmp = path + f'.tmp{os.getpid()}'
     with open(tmp, 'w') as f:
         json.dump(ev, f, indent=1, default=repr)
